@@ -228,22 +228,64 @@ def ids_of(s):
     return [int(x) for x in re.findall(r"-?\d+", s)]
 
 
+PRELUDE_PLAN = PRELUDE.replace("model.InternalEngine.", "model.InternalEngine model.InternalEnginePlan.")
+
+
+def cbw(P, b):
+    if b is None:
+        return "None"
+    return "(Some (%s, %s))" % ("true" if b.get("by") else "false", coq_list([P.s(x) for x in b.get("names") or []]))
+
+
+def ccmpq(P, q):
+    if q is None:
+        return "None"
+    return "(Some (%s, %s))" % (CMP[q["op"]], P.f(q["val"]))
+
+
+def crangeq(P, r):
+    return "(Build_rangeq float %s %s %s %s %s %s %s)" % (
+        "true" if r.get("unwrap") else "false", LRA.get(r["fn"], "LOther"), UAGG.get(r["fn"], "UOther"), P.z(r.get("dur", 0)),
+        cbw(P, r.get("pre")), cbw(P, r.get("suf")), ccmpq(P, r.get("cmp")))
+
+
+def ctopq(P, c):
+    """the aggregators of the case's query as the harness PARSED them (a second parse of the query text): model
+    InternalEnginePlan.plan_aggs turns them into the aggregator stages the specification oracle judges the output by"""
+    a = c.get("aggs")
+    if a is None:
+        raise ValueError("case %s (%s) carries no parsed aggregators" % (c.get("id"), c.get("query")))
+    if a["kind"] == "log":
+        return "(QLog float)"
+    if a["kind"] == "range":
+        return "(QRange float %s)" % crangeq(P, a["range"])
+    return "(QAgg float (Build_aggq float %s %s %s %s %s))" % (
+        AGGOP.get(a["fn"], "AOther"), cbw(P, a.get("pre")), cbw(P, a.get("suf")), ccmpq(P, a.get("cmp")), crangeq(P, a["range"]))
+
+
 def eval_chain_cases(ck, name, cases):
     P = Pool()
     body = ";\n  ".join(case_to_coq(P, c) for c in cases)
-    txt = (PRELUDE + "\n".join(P.defs) + "\nDefinition cases : list fcase := [\n  " + body + "].\n"
+    qs = ";\n  ".join(ctopq(P, c) for c in cases)
+    # M: the model run_chain over the chain the planner BUILT (read off the planned structs) = the observation;
+    # A: the aggregator stages of that chain = plan_aggs of the query as parsed (model of planAggregators);
+    # V: the specification oracle over the chain the PARSED query prescribes (ref_chain), not over the planner's choice
+    txt = (PRELUDE_PLAN + "\n".join(P.defs) + "\nDefinition cases : list fcase := [\n  " + body + "].\n"
+           "Definition qs : list ftopq := [\n  " + qs + "].\n"
            "Definition M := Eval vm_compute in mismatches cases.\nPrint M.\n"
-           "Definition V := Eval vm_compute in spec_violations cases.\nPrint V.\n")
+           "Definition A := Eval vm_compute in agg_plan_mismatches qs cases.\nPrint A.\n"
+           "Definition V := Eval vm_compute in ref_spec_violations qs cases.\nPrint V.\n")
     rc, out = ck.coq_eval(name, txt)
     if rc != 0:
-        return None, None, out
+        return None, None, None, out
     flat = " ".join(out.split())
     m = re.search(r"M = \[(.*?)\]\s*: list Z", flat)
+    a = re.search(r"A = \[(.*?)\]\s*: list Z", flat)
     v = re.search(r"V = \[(.*?)\]\s*: list \(Z \* Z\)", flat)
-    if not m or not v:
-        return None, None, out
+    if not m or not v or not a:
+        return None, None, None, out
     vv = ids_of(v.group(1))
-    return ids_of(m.group(1)), list(zip(vv[0::2], vv[1::2])), out
+    return ids_of(m.group(1)), list(zip(vv[0::2], vv[1::2])), ids_of(a.group(1)), out
 
 
 def fhex_of(tok):
@@ -262,6 +304,7 @@ def expected_of(ck, name, c):
     case: evaluated inside Coq, handed back as rows over the pools of the generated file.  None when the evaluation fails."""
     P = Pool()
     body = case_to_coq(P, c)
+    topq = ctopq(P, c)
     # label sets the reference may prescribe although the real chain never showed them: every pooled label set minus the labels a
     # drop stage of the chain names (a drop that misses a parameter leaves the right label set nowhere in the observation); names only
     # the printed `expected`, never a verdict
@@ -273,8 +316,8 @@ def expected_of(ck, name, c):
             P.l({k: v for k, v in d.items() if not any(k == n and mask >> i & 1 for i, n in enumerate(hit))})
     lnames = sorted(P.lbls.items(), key=lambda kv: int(kv[1][1:]))
     snames = sorted(P.strs.items(), key=lambda kv: int(kv[1][1:]))
-    txt = (PRELUDE + "\n".join(P.defs) + "\nDefinition E := Eval vm_compute in expected_rows %s %s\n  %s.\nPrint E.\n" % (
-        coq_list([n for _, n in lnames]), coq_list([n for _, n in snames]), body))
+    txt = (PRELUDE_PLAN + "\n".join(P.defs) + "\nDefinition E := Eval vm_compute in expected_rows %s %s\n  (ref_case %s %s).\nPrint E.\n" % (
+        coq_list([n for _, n in lnames]), coq_list([n for _, n in snames]), topq, body))
     rc, out = ck.coq_eval(name, txt)
     if rc != 0:
         return None
@@ -726,13 +769,33 @@ def run_cases(ck, cases, label):
         if fp_cases:
             fp_res = eval_fp_cases(ck, "C09_%s_fp" % label, fp_cases)
         results = [f.result() for f in futs]
-    for m, v, out in results:
+    aplan = []
+    for m, v, a, out in results:
         if m is None:
             ck.obligation("%s: cases evaluated inside Coq" % label, False, out[-2500:])
             return runnable, fp_cases
         mism += m
         viol += v
+        aplan += a
     byid = {c["id"]: c for c in runnable}
+    # round 8: the aggregator stages (by/without, range aggregation, vector aggregation, comparisons, limit, optimizer) and their
+    # ORDER as planned = model InternalEnginePlan.plan_aggs of the query as the harness parsed it a second time; the specification
+    # oracle below judges the output by the chain the parsed query prescribes, so a planner that reorders stages no longer takes
+    # the reference with it
+    ck.obligation("%s: the aggregator stages of the planned chain and their order = model plan_aggs (planAggregators / planByWithout / groupByNothing) of the parsed query on %d cases" % (label, len(runnable)),
+                  not aplan, "; ".join("%s: planned %s" % (byid[i]["query"], [st["k"] for st in byid[i]["chain"]]) for i in aplan[:3]))
+    ah = ck.extra.setdefault("aggregator_plans", {"cases": 0, "vector_aggregation": 0, "inner_comparison_under_a_vector_aggregation": 0,
+                                                  "of_those_sum_over_count_or_bytes_over_time": 0, "outer_comparison": 0, "range_comparison": 0, "unwrap_with_clause": 0})
+    for c in runnable:
+        a = c.get("aggs") or {}
+        ah["cases"] += 1
+        ah["vector_aggregation"] += a.get("kind") == "agg"
+        inner = a.get("kind") == "agg" and bool((a.get("range") or {}).get("cmp"))
+        ah["inner_comparison_under_a_vector_aggregation"] += inner
+        ah["of_those_sum_over_count_or_bytes_over_time"] += inner and a.get("fn") == "sum" and a["range"]["fn"] in ("count_over_time", "bytes_over_time") and not a["range"].get("unwrap")
+        ah["outer_comparison"] += a.get("kind") == "agg" and bool(a.get("cmp"))
+        ah["range_comparison"] += a.get("kind") == "range" and bool(a["range"].get("cmp"))
+        ah["unwrap_with_clause"] += bool((a.get("range") or {}).get("unwrap")) and bool(a["range"].get("pre") or a["range"].get("suf"))
     ck.obligation("%s: correspondence model run_chain = implementation on %d (chain, batching) cases" % (label, len(runnable)), not mism,
                   "mismatching case ids: %s" % mism[:10])
     known = ck.known_findings()
@@ -762,12 +825,19 @@ def run_cases(ck, cases, label):
                                                 5: "the limit stage cancelled the upstream query although the entries that arrived cannot fill the limit"}.get(code, "spec"),
                       "code": code, "query": c["query"], "range": c.get("range"), "case": slim(c),
                       "expected": exp if exp is not None else "(not evaluated)", "got": sorted(got_rows(c), key=row_key) if c["out"]["err"] == "" else {"error": c["out"]["err"], "message": c["out"].get("err_msg")},
-                      "explanation": "spec_code (model/InternalEngine.v) rejects the output the real chain sent for this input; expected = the reference semantics sem_chain on the input entries (series ordered by label set; series are identified by label set, fingerprints are not compared), got = the data entries the real chain sent",
+                      "planned_stages": [st["k"] for st in c["chain"]], "aggregators_as_parsed": c.get("aggs"),
+                      "planned_aggregator_stages_differ_from_the_model_of_planAggregators": cid in aplan,
+                      "explanation": "spec_code (model/InternalEngine.v) rejects the output the real chain sent for this input; expected = the reference semantics sem_chain on the input entries over the chain the PARSED query prescribes (pipeline stages as planned ++ InternalEnginePlan.plan_aggs: range aggregation, its comparison, THEN by/without, vector aggregation, outer comparison) (series ordered by label set; series are identified by label set, fingerprints are not compared), got = the data entries the real chain sent",
                       "replay": "harness inteng --cases <file with this case as one JSON line>"})
     elif mism:
         c = min((byid[i] for i in mism), key=size_of)
         ck.violation({"property": PID, "kind": "model/implementation disagree; the reference semantics still accepts every output",
                       "query": c["query"], "case": slim(c), "broken": "correspondence InternalEngine.run_chain vs internal_planner"}, no_input=True)
+    elif aplan:
+        c = min((byid[i] for i in aplan), key=size_of)
+        ck.violation({"property": PID, "kind": "the planner builds other aggregator stages (or another order) than the model of planAggregators; no generated input shows a different result",
+                      "query": c["query"], "planned_stages": [st["k"] for st in c["chain"]], "aggregators_as_parsed": c.get("aggs"),
+                      "broken": "correspondence InternalEnginePlan.plan_aggs vs internal_planner.planAggregators"}, no_input=True)
     if planned:
         m, out = plan_res
         if m is None:
